@@ -1,6 +1,6 @@
 """Base tables: string->string dictionaries and small structural anchors shared by several properties."""
 import ast
-from gen_tables import (src, module_assign, find_func, local_assign, lit, lean_value, lstr,
+from gen_tables import (src, module_assign, module_value, find_func, local_assign, lit, lean_value, lstr,
                         TranslatorError, Some)
 
 LEAN_FILE = "Tables.lean"
@@ -8,19 +8,17 @@ LEAN_FILE = "Tables.lean"
 
 def extract():
     tab = {}
-    dna = src("gen_dna.py")
-    tab["baseLibrary"] = lit(module_assign(dna, "BASE_LIBRARY"))
-    seq = src("simple_seq_parsers.py")
-    tab["oneLetterDNA"] = lit(module_assign(seq, "ONE_LETTER_DNA"))
-    tab["oneLetterRNA"] = lit(module_assign(seq, "ONE_LETTER_RNA"))
-    tab["oneLetterAA"] = lit(module_assign(seq, "ONE_LETTER_AA"))
+    tab["baseLibrary"] = module_value("gen_dna.py", "BASE_LIBRARY")
+    tab["oneLetterDNA"] = module_value("simple_seq_parsers.py", "ONE_LETTER_DNA")
+    tab["oneLetterRNA"] = module_value("simple_seq_parsers.py", "ONE_LETTER_RNA")
+    tab["oneLetterAA"] = module_value("simple_seq_parsers.py", "ONE_LETTER_AA")
     for key in ("baseLibrary", "oneLetterDNA", "oneLetterRNA", "oneLetterAA"):
         dct = tab[key]
         if not isinstance(dct, dict) or not all(isinstance(k, str) and isinstance(v, str) for k, v in dct.items()):
             raise TranslatorError(key + " is not a str->str dict literal")
 
     mods = src("apply_modifications.py")
-    names = lit(module_assign(mods, "protein_resnames"))
+    names = module_value("apply_modifications.py", "protein_resnames")
     if isinstance(names, str):
         names = names.split("|")
     tab["proteinResnames"] = [str(x) for x in names]
